@@ -17,6 +17,8 @@ RULE = (
     "versions 1-2. E's output is first validated by the reference decoder R (R(E(x)) == x, else harness error). "
     "Oracle: parse_jelly_flat, parse_jelly_grouped (concatenated) and parse_jelly_to_graph of the generic integration "
     "(and of rdflib for RDF 1.1-only cases) return exactly the ground truth, in order (sets for rdflib containers). "
+    "Plus an atheris coverage-guided differential campaign (structure-aware mutator, corpus seeded from E and pyjelly): any "
+    "bytes R classifies as a valid stream must be parsed to exactly R's events. "
     "non-trivial = the stream shows >=2 producer behaviours pyjelly's own writer never shows (counted from E's "
     "choice log); distinct by case hash."
 )
@@ -126,11 +128,21 @@ def body(case, acc):
 
 
 def check_case(case):
+    if case.get("kind") == "bytes":
+        from vlib import diffcheck
+
+        v, _ = diffcheck.check_bytes(bytes.fromhex(case["hex"]), assert_on=("valid",))
+        return v
     return body(case, None)
 
 
 def run_shard(spec) -> Acc:
     acc = Acc()
+    if spec.get("part") == "atheris_diff":
+        from vlib import diffcheck
+
+        diffcheck.run_campaign(spec, acc, "C04:", "valid")
+        return acc
     hyp_search(scen.e_case(max_len=spec.get("max_len", 12)), body, acc, seed=spec["seed"] * 1000 + spec["shard"],
                max_examples=spec["n"], known=set(spec["known"]))
     return acc
@@ -138,4 +150,8 @@ def run_shard(spec) -> Acc:
 
 def plan(tier, seed):
     n = 200 if tier == "quick" else 5000
-    return [{"shard": i, "n": n, "max_len": 12 if tier == "quick" else 30} for i in range(16)]
+    specs = [{"shard": i, "n": n, "max_len": 12 if tier == "quick" else 30} for i in range(14)]
+    # coverage-guided differential campaign: bytes the reference decoder calls valid must parse to its events
+    runs = 20000 if tier == "quick" else 2500000
+    specs += [{"part": "atheris_diff", "shard": 200 + i, "runs": runs, "wall": 200 if tier == "quick" else 1500} for i in range(2)]
+    return specs
